@@ -99,7 +99,13 @@ impl ActTask for Act {
         let state = task.state();
         let mut is_next: bool = false;
         if state.is_running() {
-            let tasks = task.children();
+            // lifecycle-hook acts attached below this act are fire-and-forget: the act does not
+            // wait for them (their completion never reviews the parent)
+            let tasks = task
+                .children()
+                .into_iter()
+                .filter(|t| !t.is_event_processed())
+                .collect::<Vec<_>>();
             let mut count = 0;
 
             for task in tasks.iter() {
@@ -141,7 +147,13 @@ impl ActTask for Act {
         let task = ctx.task();
         let state = task.state();
         if state.is_running() {
-            let tasks = task.children();
+            // lifecycle-hook acts attached below this act are fire-and-forget: the act does not
+            // wait for them (their completion never reviews the parent)
+            let tasks = task
+                .children()
+                .into_iter()
+                .filter(|t| !t.is_event_processed())
+                .collect::<Vec<_>>();
             let mut count = 0;
             for t in tasks.iter() {
                 if t.state().is_error() {
